@@ -32,6 +32,8 @@ def ref_apply(ref, cmd):
     if name == "start":
         return "ok" if ref.run(ref.end, True) == OK else "DSOLError"
     if name == "step":
+        if ref.can_start() and ref.step_at_boundary():
+            return None       # nothing may execute; refusing, idling or ending are all fine
         return "ok" if ref.step() == OK else "DSOLError"
     if name in ("run_up_to", "run_up_to_incl"):
         t = cmd[1]
@@ -198,12 +200,18 @@ def evaluate_sequential(case, runner):
             last_cmd = h[1]
         elif h[0] == "quiet" and last_cmd is not None:
             quiet_after.setdefault(last_cmd, (pos, h))
+    top = top[:len(script)]
     if len(top) != len(script):
         findings.append(("harness", "script has %d commands, history %d"
                          % (len(script), len(top))))
         return findings, info
     for c, cmd in zip(top, script):
         name = cmd[0]
+        if name == "end_replication" and not (ref.run_state == "STOPPED"
+                                              and ref.rep_state == "STARTED"):
+            # outside the generated space (DESIGN §4.4 "not generated"); can
+            # only arise while shrinking
+            return [], {"invalid": True, "accepted": 0, "refused": 0, "unjudged": 0}
         exp = ref_apply(ref, cmd)
         got = c.get("outcome")
         lenient = exp is None
@@ -213,6 +221,13 @@ def evaluate_sequential(case, runner):
             # without change, or clamped
             if got == "DSOLError":
                 exp = "DSOLError"
+            elif name == "step":
+                q = quiet_after.get(c["index"])
+                if q is not None and q[1][2] == "ENDED":
+                    ref.run(ref.end, True)       # the implementation ended the replication
+                else:
+                    ref.step()
+                exp = "ok"
             else:
                 t = cmd[1]
                 incl = name == "run_up_to_incl"
